@@ -946,10 +946,11 @@ static int certattr_matchwildcard(GENERAL_NAME *gn, struct certattrmatch *match)
         if (strstr(v + strlen(wildcardtoken), "*")) {
             debug(DBG_DBG, "certattr_matchwildcard: illegal wildcard additional * detected");
         } else if ((suffix = strstr(match->name, v + 1))) {
-            ret = strstr(match->name, ".") < suffix ? 0 : 1;
+            /* exactly one non-empty label, and the wildcard's remainder must end the name */
+            ret = (strstr(match->name, ".") < suffix || suffix == match->name || strlen(suffix) != strlen(v + 1)) ? 0 : 1;
         }
     } else {
-        ret = strncmp(v, match->name, l) == 0 ? 1 : 0;
+        ret = strcmp(v, match->name) == 0 ? 1 : 0;
     }
     free(v);
     return ret;
